@@ -56,3 +56,16 @@ Definition in_some_cell (cells : list (list Z)) (v : Z) : bool := existsb (fun c
 Definition kept_vertices (vids : list Z) (cells : list (list Z)) : list Z := filter (in_some_cell cells) vids.
 Definition kept_edges (edges : list (Z * (Z * Z))) (cells : list (list Z)) : list (Z * (Z * Z)) :=
   filter (fun kv => in_some_cell cells (fst (snd kv)) && in_some_cell cells (snd (snd kv))) edges.
+
+(* the other end of a signed edge, and what it means for a face's loop to be closed head to tail *)
+Definition head_vertex (edges : list (Z * (Z * Z))) (e : Z) : option Z := tail_vertex edges (- e).
+Fixpoint head_to_tail (edges : list (Z * (Z * Z))) (first : Z) (loop : list Z) : bool :=
+  match loop with
+  | [] => true
+  | e :: t => match head_vertex edges e, tail_vertex edges (match t with [] => first | e' :: _ => e' end) with
+              | Some h, Some tl => Z.eqb h tl && head_to_tail edges first t
+              | _, _ => false
+              end
+  end.
+Definition closed_loop (edges : list (Z * (Z * Z))) (loop : list Z) : bool :=
+  match loop with [] => true | e :: _ => head_to_tail edges e loop end.
